@@ -48,7 +48,7 @@ def init_params(cls):
     """(positional names, {kwonly name: (annotation source, default node)}) of the resolved __init__"""
     f = cls.find("__init__")
     if f is None:
-        return [], {}
+        return [], {}, {}, {}
     a = f.node.args
     pos = [p.arg for p in a.args][1:]
     pos_def = dict(zip([p.arg for p in a.args][len(a.args) - len(a.defaults) :], a.defaults))
